@@ -4,7 +4,9 @@ import re
 
 from vlib import replay
 
-SIZES = ['none', 0, 1, 5, 255, 256, 257, 65534, 65535, 65536, 65537, 70000, 131072]
+# the u16 boundary, the u8 boundary and the buffer sizes a chunked reader would plausibly use (powers of two and their neighbours, multiples)
+SIZES = ['none', 0, 1, 2, 3, 5, 63, 64, 65, 127, 128, 129, 255, 256, 257, 511, 512, 513, 1023, 1024, 1025, 1460, 2047, 2048, 2049, 4095, 4096, 4097, 8191, 8192, 8193,
+         12288, 16383, 16384, 16385, 32767, 32768, 32769, 61440, 65534, 65535, 65536, 65537, 70000, 131072]
 
 
 def expect(inst, n, fill, tail):
